@@ -222,11 +222,18 @@ def run_special():
     viol = []
     stats = {}
     evals = 0
-    impl.write_files({"self.s": ".include 'self.s'\n", "a.s": ".include 'b.s'\n", "b.s": ".include 'a.s'\n"})
+    from mc.ref import ips as refips
+    good = refips.build([(0x1000, bytes(range(20)), "plain"), (0x2000, (9, 0x55), "rle"), (0x3000, b"\xAA" * 300, "plain")])
+    ipsfiles = {f"cut{c}.ips": good[:c] for c in list(range(0, 40)) + [len(good) - 3, len(good) - 1]}
+    ipsfiles.update({"hdr.ips": b"PATCH", "empty.ips": b"", "junk.ips": b"\x00" * 64, "ok.ips": good})
+    impl.write_files(dict(ipsfiles, **{"self.s": ".include 'self.s'\n", "a.s": ".include 'b.s'\n", "b.s": ".include 'a.s'\n"}))
     texts = [".include 'self.s'\n", ".include 'a.s'\n", ".macro r() {\nr()\n}\nr()\n", ".macro r(n) {\n.db n\nr(n+1)\n}\nr(0)\n",
              "{" * 400, "(" * 400, "lda " + "(" * 300, "a" * 2000, "'" + "a" * 2000, ".db " + "1," * 500, "/*" * 50, "/* a */" * 50 + "/*",
              ".macro apply(body) {\n{{body}}\n}\napply({\nnop\n{{body}}\n})\n", ".macro ap2(a, b) {\n{{a}}\n}\nap2({\n{{b}}\n}, {\n{{a}}\n})\n",
              ".for i := 0, 300 {\n.db i\n}\n", ".macro m(a) {\n.if a {\nm(a-1)\n}\n}\nm(300)\n", "-" * 500 + "1", "~" * 300 + "1", "l: " * 300]
+    texts += [f"*=0x018000\n.include_ips '{name}', 0\n.db 1\n" for name in sorted(ipsfiles)]
+    # unterminated strings of growing length (a scan time that doubles per character shows up as budget exhaustion)
+    texts += [".ascii '" + "a" * n for n in (8, 16, 24, 32, 48, 64, 200)] + [".ascii '" + "ab " * n + "\n.db 1\n" for n in (10, 20, 40)]
     for t in texts:
         evals += run_input(t, ENTRIES_PROG, viol, stats, big=True)
     # every loop-bound pair, literal and through constants / macro parameters: empty and reversed ranges must simply end
